@@ -242,6 +242,7 @@ var c09MsgClass = []struct {
 	{"nodata", regexp.MustCompile(`carries neither data nor errors$`)},
 	{"node-missing", regexp.MustCompile(`^missing node key when expected$`)},
 	{"node-not-map", regexp.MustCompile(`^node is not a map$`)},
+	{"mapping", regexp.MustCompile(`^missing mapping for indexes$`)},
 }
 
 func c09ClassOf(msg string) string {
@@ -436,7 +437,27 @@ func c09Check(ctx *Ctx, pl *fwPool, idx int, cs c09Case, base *c09Base) {
 			return
 		case "error":
 			cl, _ := m["class"].(string)
-			if cl == "errors" {
+			if cl == "node" {
+				// parseRespones reports every failing unwrap (as *Error with the insertion point as path):
+				// the messages must coincide
+				var want, got []string
+				for _, mm := range errMessages(asList(m["errors"])) {
+					want = append(want, mm)
+					modelClasses[c09ClassOf(mm)] = true
+				}
+				for _, mm := range msgs {
+					if c := c09ClassOf(mm); c == "node-missing" || c == "node-not-map" {
+						got = append(got, mm)
+					}
+				}
+				// as SETS: one downstream response fans out to every execution request that was de-duplicated
+				// into it (IndexMap, C12's subject), so the same message can come back several times
+				want, got = uniq(want), uniq(got)
+				if len(applied) == 1 && hx.Canon(want) != hx.Canon(got) {
+					fail("model-mismatch", "", fmt.Sprintf("node unwrapping: model reports %v, the gateway %v", want, got), res.Body, m)
+					return
+				}
+			} else if cl == "errors" {
 				// downstream errors: every error the model forwards must be in the client's list
 				want, _ := m["errors"].([]interface{})
 				for _, w := range want {
@@ -482,6 +503,22 @@ func c09Check(ctx *Ctx, pl *fwPool, idx int, cs c09Case, base *c09Base) {
 func crashShort(c string) string {
 	c = strings.TrimPrefix(c, "panic: ")
 	return c
+}
+
+func uniq(xs []string) []string {
+	sort.Strings(xs)
+	var out []string
+	for i, x := range xs {
+		if i == 0 || x != xs[i-1] {
+			out = append(out, x)
+		}
+	}
+	return out
+}
+
+func asList(v interface{}) []interface{} {
+	l, _ := v.([]interface{})
+	return l
 }
 
 func jsonOf(s string) interface{} {
